@@ -433,3 +433,4 @@ def _claim_helper(filename, src):
 S('REF_S_claim_in_helper', ['C04', 'C16', 'C08', 'C01', 'C09'], '*', pkg_fn=_claim_helper)
 S('REF_S_claim_inline_copy', ['C04'], 'bitarray_.py', "        if self._bitstore.immutable:\n            self._bitstore = self._bitstore._copy()\n            self._bitstore.immutable = False\n\n    def copy(", "        if self._bitstore.immutable:\n            self._bitstore = self._bitstore.getslice_msb0(None, None)\n            self._bitstore.immutable = False\n\n    def copy(")
 S('B1_S_new_length_preserving_mutator', ['C06', 'C20', 'C03'], 'bitarray_.py', "    def clear(self) -> None:\n        \"\"\"Remove all bits, reset to zero length.\"\"\"", "    def fill(self, value: Any) -> None:\n        \"\"\"Set every bit to bool(value).\"\"\"\n        self._bitstore.setall(1 if value else 0)\n\n    def clear(self) -> None:\n        \"\"\"Remove all bits, reset to zero length.\"\"\"")
+S('N4_S_new_option', ['C09', 'C20'], 'bitstring_options.py', "    @property\n    def bytealigned(self) -> bool:\n        return self._bytealigned\n", "    @property\n    def strict(self) -> bool:\n        return self._strict\n\n    @strict.setter\n    def strict(self, value: bool) -> None:\n        self._strict = bool(value)\n\n    @property\n    def bytealigned(self) -> bool:\n        return self._bytealigned\n")
